@@ -10,7 +10,8 @@ from ..core import AnalysisError, const_value
 from ..defuse import DefUse, Terms, show, walk_term
 from ..flow import Flow
 from ..paths import path_variants
-from ..tutil import seq_elems
+from ..tutil import (bound_args, concat_parts, mapped_over, np_call,
+                     positional, seq_elems, term_strings, literal_parts)
 
 EXPLANATION = (
     "Static analysis of confidence.assign_confidence / "
@@ -318,16 +319,35 @@ def _first_seen_wins(ctx, f):
               f", (level, deduplication, runs) = {table}", node=st)
 
 
+def _membership(term, outcome):
+    """(key, container, is-member) of an in / not-in condition"""
+    if term[0] == "cmp" and term[1] in ("in", "not in"):
+        return term[2], term[3], (term[1] == "in") == outcome
+    return None
+
+
 def _rollup_levels(ctx, f):
     cfg = CFG(f.node)
+    du = DefUse(ctx.prog, f)
+    T = Terms(du)
+
+    def row_source(n):
+        t = T.of(n.iter)
+        if t[0] == "call" and t[1] == "builtins.enumerate" and t[2]:
+            t = t[2][0]
+        return t[0] == "mcall" and t[2] == "get_row_iterator"
+
     loops = [n for n in ast.walk(f.node) if isinstance(n, ast.For)
-             and "get_row_iterator" in ast.unparse(n.iter)]
+             and row_source(n)]
     ctx.require(len(loops) == 1, f"{f.qual}: row loop not found")
     rl = loops[0]
-    lls = [s for s in rl.body if isinstance(s, ast.For)]
-    ctx.require(len(lls) == 1, f"{f.qual}: level loop not found")
-    ll = lls[0]
-    lvl = ll.target.id
+    apps = [n for n in ast.walk(rl) if isinstance(n, ast.Call)
+            and isinstance(n.func, ast.Attribute)
+            and n.func.attr == "append_data"]
+    ctx.require(apps, f"{f.qual}: no row is written in the row loop")
+    ll = cfg.enclosing(apps[0], (ast.For,))
+    ctx.require(ll is not None and ll is not rl and inside(ll, rl),
+                f"{f.qual}: level loop not found")
     brk = [n for n in ast.walk(ll) if isinstance(n, (ast.Break, ast.Return))]
     ctx.check(not brk, "C03b-rollup-levels-independent", f,
               "every rollup level is decided on its own seen-set (no break "
@@ -335,44 +355,42 @@ def _rollup_levels(ctx, f):
               "the level loop of the rollup tool stops at the first seen "
               "entity: levels that are not nested in the previous one "
               "(peptide groups) miss their best row", node=ll)
-    tests = [n for n in ast.walk(ll) if isinstance(n, ast.If)
-             and isinstance(n.test, ast.Compare)
-             and isinstance(n.test.ops[0], (ast.In, ast.NotIn))]
-    ctx.require(len(tests) == 1, f"{f.qual}: seen test not found")
-    st = tests[0]
-    unseen = st.body if isinstance(st.test.ops[0], ast.NotIn) else st.orelse
-    adds = [n for s in unseen for n in ast.walk(s)
-            if isinstance(n, ast.Call) and isinstance(n.func, ast.Attribute)
-            and n.func.attr == "add"]
-    apps = [n for s in unseen for n in ast.walk(s)
-            if isinstance(n, ast.Call) and isinstance(n.func, ast.Attribute)
-            and n.func.attr == "append_data"]
-    du = DefUse(ctx.prog, f)
-    T = Terms(du)
-    ok = len(adds) == 1 and len(apps) == 1
-    why = f"adds={len(adds)} appends={len(apps)} on the unseen branch"
+    adds = [n for n in ast.walk(ll) if isinstance(n, ast.Call)
+            and isinstance(n.func, ast.Attribute) and n.func.attr == "add"
+            and len(n.args) == 1]
+    in_ll = [a for a in apps if inside(a, ll)]
+    ok = len(adds) == 1 and len(in_ll) == 1 and len(apps) == 1
+    why = f"adds={len(adds)} appends={len(apps)} in the level loop"
+    new_only = False
     if ok:
-        seen_t = T.of(st.test.comparators[0])
+        def lconds(n):
+            out = []
+            for t, o in cfg.necessary_conditions(n):
+                if inside(t, ll):
+                    tt = T.of(t)
+                    while tt[0] == "un" and tt[1] == "not":
+                        tt, o = tt[2], not o
+                    out.append(_membership(tt, o) or (tt, o))
+            return out
+        ca, cw = lconds(adds[0]), lconds(apps[0])
         add_t = T.of(adds[0].func.value)
-        key_t = T.of(st.test.left)
         addk_t = T.of(adds[0].args[0])
         w_t = T.of(apps[0].func.value)
         lv = ("elem", T.of(ll.iter))
-        ok = (seen_t == add_t and key_t == addk_t
-              and seen_t[0] == "sub" and seen_t[2] == lv
+        want = (addk_t, add_t, False)       # key not in seen-set
+        new_only = cw == [want]
+        ok = (ca == [want] and new_only
+              and add_t[0] == "sub" and add_t[2] == lv
               and w_t[0] == "sub" and w_t[2] == lv
-              and any(x == lv for x in walk_term(key_t)))
-        why = (f"seen={show(seen_t, 60)} add={show(add_t, 60)} "
-               f"key={show(key_t, 60)} writer={show(w_t, 60)}")
+              and any(x == lv for x in walk_term(addk_t)))
+        why = (f"records {show(addk_t, 60)} in {show(add_t, 60)} under "
+               f"{[show(c, 80) for c in ca]}; writes to {show(w_t, 60)} "
+               f"under {[show(c, 80) for c in cw]}")
     ctx.check(ok, "C03b-rollup-first-seen-wins", f,
               "rollup keeps a row for a level iff its entity id is new for "
               "that level, records it, and writes it to that level's file",
-              why, node=st)
-    # outside the unseen branch nothing is appended
-    all_apps = [n for n in ast.walk(ll) if isinstance(n, ast.Call)
-                and isinstance(n.func, ast.Attribute)
-                and n.func.attr == "append_data"]
-    ctx.check(len(all_apps) == len(apps), "C03b-rollup-only-new", f,
+              why, node=apps[0])
+    ctx.check(new_only, "C03b-rollup-only-new", f,
               "rows are only written on the new-entity branch",
               "append_data outside the new-entity branch", node=ll)
 
@@ -625,61 +643,115 @@ def _target_decoy_routing(ctx):
     ctx.check(ok_o, "C03d-path-order", g,
               "out_files[level] = [targets path] (+ decoys path iff decoys)",
               why or "idiom not recognised", node=g.node)
-    # rollup
+    # rollup: which rows go to which output path (sink-driven)
     r = prog.func("mokapot.brew_rollup.do_rollup")
     du3 = DefUse(prog, r)
     T3 = Terms(du3)
     ws = [n for n in ast.walk(r.node) if isinstance(n, ast.Call)
           and isinstance(n.func, ast.Attribute) and n.func.attr == "write"
-          and isinstance(n.func.value, ast.Subscript)]
-    pos = {}
+          and len(n.args) == 1]
+    ctx.require(len(ws) >= 2, f"{r.qual}: output writes not found")
+
+    def strip_store(t):
+        while t[0] in ("store", "mut"):
+            t = t[1]
+        return t
+
+    def decoy_parity(m, frame):
+        """number of negations around frame['is_decoy'](.values), or None"""
+        k = 0
+        while True:
+            if m[0] == "un" and m[1] == "~":
+                m, k = m[2], k + 1
+            elif m[0] == "attr" and m[2] == "values":
+                m = m[1]
+            else:
+                break
+        if m[0] == "sub" and m[2] == ("const", "is_decoy") and \
+                strip_store(m[1]) == strip_store(frame):
+            return k
+        return None
+
+    routes = []
+    path_lists = set()
     for w in ws:
-        i = const_value(w.func.value.slice)
-        arg = w.args[0]
-        if isinstance(arg, ast.Subscript) and isinstance(
-                arg.slice, ast.Tuple):
-            pos[i] = ast.unparse(arg.slice.elts[0])
-    tdef = [n for n in ast.walk(r.node) if isinstance(n, ast.Assign)
-            and ast.unparse(n.targets[0]) == "targets"]
-    ok_r = pos.get(0) == "targets" and pos.get(1) == "~targets" and \
-        len(tdef) == 1 and ast.unparse(tdef[0].value) == \
-        "~data['is_decoy'].values"
+        recv = T3.of(w.func.value)
+        arg = T3.of(w.args[0])
+        ps = positional(recv)
+        src = mapped_over(prog, ps[0]) if ps else None
+        names = None
+        if src is not None and src[0] == "sub":
+            dct = src[1]
+            if dct[0] == "comp" and dct[1] == "dict" and \
+                    dct[2][0] == "tuple" and dct[2][1][1][0] == "list":
+                elts = dct[2][1][1][1]
+                path_lists.add(elts)
+                if ps[1] < len(elts):
+                    names = literal_parts(elts[ps[1]])
+        par = None
+        if arg[0] == "sub" and arg[1][0] == "attr" and arg[1][2] == "loc" \
+                and arg[2][0] == "tuple" and len(arg[2][1]) == 2:
+            par = decoy_parity(arg[2][1][0], arg[1][1])
+        routes.append((ps[1] if ps else None, names, par))
+    ok_r = len(routes) == 2 and all(
+        nm is not None and par is not None for _i, nm, par in routes)
+    if ok_r:
+        for _i, nm, par in routes:
+            is_t = any("targets." in x for x in nm) and not any(
+                "decoys." in x for x in nm)
+            is_d = any("decoys." in x for x in nm) and not any(
+                "targets." in x for x in nm)
+            ok_r = ok_r and ((is_t and par % 2 == 1)
+                             or (is_d and par % 2 == 0))
+        ok_r = ok_r and sorted(i for i, _n, _p in routes) == [0, 1]
     ctx.check(ok_r, "C03d-rollup-mask-order", r,
-              "rollup writes targets (not is_decoy) to position 0 and "
-              "decoys to position 1",
-              f"writes: {pos}; targets = "
-              f"{[ast.unparse(t.value) for t in tdef]}", node=r.node)
-    of = [n for n in ast.walk(r.node) if isinstance(n, ast.Assign)
-          and ast.unparse(n.targets[0]) == "out_files"]
-    ok_f = False
-    if len(of) == 1 and isinstance(of[0].value, ast.DictComp) and \
-            isinstance(of[0].value.value, ast.List):
-        e = [ast.unparse(x) for x in of[0].value.value.elts]
-        ok_f = len(e) == 2 and "targets." in e[0] and "decoys." in e[1]
+              "rollup writes the rows that are not is_decoy to the targets "
+              "path and the is_decoy rows to the decoys path",
+              "(position, path strings, negations of is_decoy): "
+              f"{routes}", node=ws[0])
+    ok_f = len(path_lists) == 1
+    if ok_f:
+        e = [literal_parts(x) for x in next(iter(path_lists))]
+        ok_f = len(e) == 2 and any("targets." in x for x in e[0]) and any(
+            "decoys." in x for x in e[1])
     ctx.check(ok_f, "C03d-rollup-path-order", r,
               "rollup out_files[level] = [targets path, decoys path]",
               "rollup output paths are not [targets, decoys]", node=r.node)
-    # is_decoy: False for target files, True for decoy files
-    flags = {}
-    for n in ast.walk(r.node):
-        if isinstance(n, ast.Assign) and isinstance(n.value, ast.ListComp) \
-                and "ComputedTabularDataReader" in ast.unparse(n.value.elt):
-            kw = {k.arg: k.value for k in n.value.elt.keywords}
-            lam = kw.get("func")
-            val = None
-            if isinstance(lam, ast.Lambda) and isinstance(
-                    lam.body, ast.Call) and len(lam.body.args) == 2:
-                val = const_value(lam.body.args[1])
-            flags[ast.unparse(n.targets[0])] = (
-                val, ast.unparse(n.value.generators[0].iter),
-                const_value(kw.get("column")))
-    ok_d = flags.get("target_readers") == (False, "target_files",
-                                           "is_decoy") and \
-        flags.get("decoy_readers") == (True, "decoy_files", "is_decoy")
+    # is_decoy: False for target files, True for decoy files - read off the
+    # readers handed to the merging reader
+    mr = [n for n in ast.walk(r.node) if isinstance(n, ast.Call)
+          and ast.unparse(n.func) == "MergedTabularDataReader" and n.args]
+    ctx.require(len(mr) == 1, f"{r.qual}: merging reader not found")
+    flags = []
+    for kind, part in concat_parts(T3.of(mr[0].args[0])):
+        ent = {"flag": None, "pattern": None, "column": None}
+        if kind == "splice" and part[0] == "comp" and len(part[3]) == 1:
+            files = part[3][0][1]
+            b = bound_args(prog, part[2]) or {}
+            ent["column"] = b.get("column", (None, None))[1]
+            lam = b.get("func")
+            if lam and lam[0] == "lambda":
+                c = np_call(lam[2])
+                if c and c[0] == "full" and len(c[1]) == 2 and \
+                        c[1][1][0] == "const":
+                    ent["flag"] = c[1][1][1]
+            rd = b.get("reader")
+            if rd is not None and any(x == ("elem", files)
+                                      for x in walk_term(rd)):
+                pats = [x for x in term_strings(files)
+                        if ".targets." in x or ".decoys." in x]
+                ent["pattern"] = sorted(set(
+                    "targets" if ".targets." in x else "decoys"
+                    for x in pats))
+        flags.append(ent)
+    ok_d = sorted((e["flag"], tuple(e["pattern"] or ()), e["column"])
+                  for e in flags if e["flag"] is not None) == [
+        (False, ("targets",), "is_decoy"), (True, ("decoys",), "is_decoy")] \
+        and len(flags) == 2
     ctx.check(ok_d, "C03d-rollup-decoy-flag", r,
               "rows read from *.targets.* files are flagged is_decoy=False, "
               "rows from *.decoys.* files True",
-              f"computed columns: {flags}", node=r.node)
+              f"computed columns: {flags}", node=mr[0])
     globs = {}
     for n in ast.walk(r.node):
         if isinstance(n, (ast.Assign, ast.AnnAssign)) and n.value is not \
